@@ -2,10 +2,11 @@
    Statements only.  Model: Model/LR.v (`lr_loop` = the `while True:` growth loop, `lr_forward` = Forward.parseImpl,
    `parse_lr` = the handler threading the memo; `memo` with m_cap = None is UnboundedMemo, Some c is LRUMemo(c)).
    Auxiliary definitions (ends_bounded, seeded, grow, iter, rep_ref, the concrete attributed grammars GXY/IXY/GE/IE/GN as
-   dumped from the real objects) are in Proofs/LRGrowth.v. *)
+   dumped from the real objects) are in Proofs/LRGrowth.v; those of sections 3b / 3c (ws_of, tail_res, walks, pindep, agree, left_nest,
+   nest_rounds, agree_nested, the grammars IE' / GG / GZ / IZ) in Proofs/LRIter.v. *)
 From Coq Require Import List ZArith NArith Bool Arith.
 From PP Require Import Model.Str Model.Results Model.Prog Model.Core Model.Entry Model.LR.
-From PP Require Import Proofs.LRGrowth Proofs.LRTie.
+From PP Require Import Proofs.LRGrowth Proofs.LRTie Proofs.LRIter.
 Import ListNotations.
 
 (* ============================ 1. the growth loop needs no loop fuel ============================ *)
@@ -110,9 +111,9 @@ Proof. exact lr_forward_grow. Qed.
    Conclusion: `E._parse` answers what `iter` computes: start from base's result; in each round run the tail elements at
    the current end on the accumulated result (`and_pure`, tokens joined with pr_iadd, re-wrapped by E / And / MatchFirst);
    extend iff the tail matches and advances; stop at the first round where it does not; capacity preserved.
-   Missing for the property's text: do_actions-sensitive actions, results names, the grouped form Group(E + tail), Or
-   bodies, several recursive alternatives, base/tail containing other Forwards, and the link from `iter`/`rep_ref` to the
-   plain parser running `base + ZeroOrMore(And(tail))` (shown on an instance below by computation). *)
+   The link from `iter` to the plain parser running `base + ZeroOrMore(And(tail))` is section 3b, the grouped form
+   Group(E + tail) section 3c.  Missing for the property's text: do_actions-sensitive actions, results names, Or bodies,
+   several recursive alternatives, base/tail containing other Forwards. *)
 Theorem C04_direct_equiv_partial : forall G s (ans : expr -> nat -> outcome) id aE ab aa tail base loc f0,
   nth_error G id = Some (Nary ab [] NMatchFirst [Nary aa [] NAnd (Fwd aE [] (Some id) :: tail); base]) ->
   plain aE -> plain aa -> plain ab ->
@@ -175,6 +176,233 @@ Example C04_direct_positive :
   lr None = expected /\ lr (Some 1) = expected /\ lr (Some 2) = expected /\
   res_of_plain (parse (step []) 40 (mkargs IE s_121 0 true true)) = expected.
 Proof. vm_compute. repeat split. Qed.
+
+(* ============================ 3b. the link to the iterative grammar under the PLAIN parser ============================ *)
+(* Definitions (Proofs/LRIter.v):
+     ws_of a s l     where an element with attributes a and no ignorables starts after its own preParse from l;
+     tail_res        the tail elements of the And run in sequence from l (each with callPreParse = True), read as
+                     TOk end tokens | TErr exception-class | TDiv;
+     walks s ans tail   from every l <= len+1: IF the tail matches at l THEN it ends at l' with l < l' <= len+1
+                     ("the tail advances when it matches" + the C06 location bound); `walksb` is its finite check;
+     pindep G' s ans f0 c   the plain parser's `c._parse(s, l, d, True)` answers `ans c l` for every fuel >= f0, l, d
+                     (the same `ans` as `indep` for parse_lr: tok_indep / tok_pindep give both for every token);
+     agree wsl lb o_lr o_it   both Ok with EQUAL TOKEN LISTS and end_it = (if end_lr = lb then wsl else end_lr), or both Err
+                     with the same exception class, or both Div.
+   The end locations can differ in exactly one case: zero repetitions.  The growth loop then answers base's end lb, while
+   ZeroOrMore returns its own pre-parsed location ws_of ar s lb (the whitespace after base is consumed): see
+   C04_direct_iterative_zero_instance.  With at least one repetition both end where the last tail ended.
+
+   ONE end-to-end statement for the flat direct rule E <<= (E + t1 + rest...) | base: for every input, location,
+   do_actions, callPreParse, every fuel 4+f / 3+f with f >= f0, and every memo (ANY capacity m_cap, any content without an
+   entry for E here), bounded recursion under `parse_lr` and the plain parser on
+   base + ZeroOrMore(And(t1 :: rest)) agree.  PARTIAL: hypotheses of C04_direct_equiv_partial, plus
+     - the And / ZeroOrMore / inner And of the iterative grammar are name-free, action-free, without ignorables (any other
+       attributes: every attribute assignment the real constructors produce is covered);
+     - t1 is not an And._ErrorStop marker; the elements answer the same `ans` under the plain parser;
+     - whitespace alignment (true for the real constructors, which copy the whitespace settings of the first element /
+       the body: ws_of_idem, tok_nopre): And(t1 ..) calling t1 with callPreParse = False after its own preParse is t1's own
+       `_parse` from l; ZeroOrMore's preParse before the body's changes nothing; base called without preParse at E's start
+       answers as with it; E and the iterative And start at the same place;
+     - `walks`: WITHOUT it the statement is false, see C04_iterative_nullable_tail_refuted;
+     - base ends within len + 1.
+   Still missing for the property's text: results names / do_actions-sensitive actions, several recursive alternatives,
+   Or bodies, base/tail containing other Forwards (two-level precedence), the indirect shape (refuted below). *)
+Theorem C04_direct_iterative_partial :
+  forall G G' s (ans : expr -> nat -> outcome) id aE ab aa ai ar at_ t1 rest base loc f0,
+  nth_error G id = Some (Nary ab [] NMatchFirst [Nary aa [] NAnd (Fwd aE [] (Some id) :: t1 :: rest); base]) ->
+  plain aE -> plain aa -> plain ab ->
+  ws_of aa s loc = loc ->
+  indep G s ans f0 base ->
+  (forall c, In c (t1 :: rest) -> indep G s ans f0 c) ->
+  plain ai -> plain ar -> plain at_ ->
+  is_estop t1 = false ->
+  (forall c, In c rest -> pindep G' s ans f0 c) ->
+  (forall fu, f0 <= fu -> forall l d, parse (step G') fu (mkargs t1 s (ws_of at_ s l) d false) = Some (ans t1 l)) ->
+  (forall l, ws_of at_ s (ws_of ar s l) = ws_of at_ s l) ->
+  walks s ans (t1 :: rest) ->
+  (forall fu, f0 <= fu -> forall d, parse (step G') fu (mkargs base s loc d false) = Some (ans base loc)) ->
+  forall lb rb, ans base loc = Ok lb rb -> loc <= lb -> lb <= length s + 1 ->
+  forall f d pre loc0 m, f0 <= f ->
+  fwd_start aE s loc0 pre = loc -> fwd_start ai s loc0 pre = loc ->
+  memo_get m (loc, nid aE, d) = None ->
+  exists m' o_lr o_it,
+    parse_lr G (4 + f) m (mkargs (Fwd aE [] (Some id)) s loc0 d pre) = Some (o_lr, m') /\
+    m_cap m' = m_cap m /\
+    parse (step G') (3 + f)
+      (mkargs (Nary ai [] NAnd [base; Rep ar [] true (Nary at_ [] NAnd (t1 :: rest)) None]) s loc0 d pre) = Some o_it /\
+    agree (ws_of ar s lb) lb o_lr o_it.
+Proof. exact direct_iterative. Qed.
+
+(* the same when the tail is ONE element: E <<= E + t1 | base  vs  base + ZeroOrMore(t1) (the repetition body is t1 itself) *)
+Theorem C04_direct_iterative_single_partial :
+  forall G G' s (ans : expr -> nat -> outcome) id aE ab aa ai ar t1 base loc f0,
+  nth_error G id = Some (Nary ab [] NMatchFirst [Nary aa [] NAnd [Fwd aE [] (Some id); t1]; base]) ->
+  plain aE -> plain aa -> plain ab ->
+  ws_of aa s loc = loc ->
+  indep G s ans f0 base -> indep G s ans f0 t1 ->
+  plain ai -> plain ar ->
+  is_estop t1 = false ->
+  pindep G' s ans f0 t1 ->
+  (forall l, ans t1 (ws_of ar s l) = ans t1 l) ->
+  walks s ans [t1] ->
+  (forall fu, f0 <= fu -> forall d, parse (step G') fu (mkargs base s loc d false) = Some (ans base loc)) ->
+  forall lb rb, ans base loc = Ok lb rb -> loc <= lb -> lb <= length s + 1 ->
+  forall f d pre loc0 m, f0 <= f ->
+  fwd_start aE s loc0 pre = loc -> fwd_start ai s loc0 pre = loc ->
+  memo_get m (loc, nid aE, d) = None ->
+  exists m' o_lr o_it,
+    parse_lr G (4 + f) m (mkargs (Fwd aE [] (Some id)) s loc0 d pre) = Some (o_lr, m') /\
+    m_cap m' = m_cap m /\
+    parse (step G') (2 + f) (mkargs (Nary ai [] NAnd [base; Rep ar [] true t1 None]) s loc0 d pre) = Some o_it /\
+    agree (ws_of ar s lb) lb o_lr o_it.
+Proof. exact direct_iterative_single. Qed.
+
+(* the general form behind both: ANY repetition body B whose plain answer `bans` reads as one tail *)
+Theorem C04_direct_iterative_body_partial :
+  forall G G' s (ans : expr -> nat -> outcome) id aE ab aa ai ar tail base B bans fB loc f0,
+  nth_error G id = Some (Nary ab [] NMatchFirst [Nary aa [] NAnd (Fwd aE [] (Some id) :: tail); base]) ->
+  plain aE -> plain aa -> plain ab ->
+  ws_of aa s loc = loc ->
+  indep G s ans f0 base ->
+  (forall c, In c tail -> indep G s ans f0 c) ->
+  plain ai -> plain ar ->
+  (forall fu, fB <= fu -> forall l d, parse (step G') fu (mkargs B s l d true) = Some (bans l)) ->
+  (forall l, match tail_res ans tail l false with
+             | TOk l' ts => exists r, bans l = Ok l' r /\ toks r = ts
+             | TErr k => exists x, bans l = Err x /\ (if soft k then soft (xk x) = true else xk x = k)
+             | TDiv => bans l = Div
+             end) ->
+  walks s ans tail ->
+  (forall fu, f0 <= fu -> forall d, parse (step G') fu (mkargs base s loc d false) = Some (ans base loc)) ->
+  forall lb rb, ans base loc = Ok lb rb -> loc <= lb -> lb <= length s + 1 ->
+  bans (ws_of ar s lb) = bans lb ->
+  forall f fi d pre loc0 m, f0 <= f -> f0 <= S fi -> fB <= fi ->
+  fwd_start aE s loc0 pre = loc -> fwd_start ai s loc0 pre = loc ->
+  memo_get m (loc, nid aE, d) = None ->
+  exists m' o_lr o_it,
+    parse_lr G (S (S (S (S f)))) m (mkargs (Fwd aE [] (Some id)) s loc0 d pre) = Some (o_lr, m') /\
+    m_cap m' = m_cap m /\
+    parse (step G') (S (S fi)) (mkargs (Nary ai [] NAnd [base; Rep ar [] true B None]) s loc0 d pre) = Some o_it /\
+    agree (ws_of ar s lb) lb o_lr o_it.
+Proof. exact direct_iterative_gen. Qed.
+
+(* `walks` for a given input is a finite check *)
+Theorem C04_walks_decidable : forall s ans tail, walksb s ans tail = true -> walks s ans tail.
+Proof. exact walksb_ok. Qed.
+
+(* instances THROUGH the theorem (every hypothesis discharged: tok_indep, tok_pindep, tok_nopre, ws_of_idem, walksb), for
+   every fuel, do_actions and memo of any capacity.  E <<= E + '+' + N | N  vs  IE' = N + ZeroOrMore('+' + N) built from the
+   same '+' and N objects.  "1+2+1": complete match *)
+Example C04_direct_iterative_instance : forall f d m,
+  memo_get m (0, 1, d) = None ->
+  exists m' r,
+    parse_lr GE (5 + f) m (mkargs gE s_121 0 d true) =
+      Some (Ok 5 (pr_of_list [tstr 49; tstr 43; tstr 50; tstr 43; tstr 49]), m') /\ m_cap m' = m_cap m /\
+    parse (step GE) (4 + f) (mkargs IE' s_121 0 d true) = Some (Ok 5 r) /\
+    toks r = [tstr 49; tstr 43; tstr 50; tstr 43; tstr 49].
+Proof. exact direct_iterative_121. Qed.
+
+(* " 1 + 2 +": leading whitespace, a dangling operator: both stop after ['1','+','2'] at 6 *)
+Example C04_direct_iterative_partial_instance : forall f d m,
+  memo_get m (1, 1, d) = None ->
+  exists m' r,
+    parse_lr GE (5 + f) m (mkargs gE s_partial 0 d true) =
+      Some (Ok 6 (pr_of_list [tstr 49; tstr 43; tstr 50]), m') /\ m_cap m' = m_cap m /\
+    parse (step GE) (4 + f) (mkargs IE' s_partial 0 d true) = Some (Ok 6 r) /\
+    toks r = [tstr 49; tstr 43; tstr 50].
+Proof. exact direct_iterative_partial_inst. Qed.
+
+(* "1 +": zero repetitions: the same tokens ['1'], the left-recursive form ends at 1, the iterative form at 2 *)
+Example C04_direct_iterative_zero_instance : forall f d m,
+  memo_get m (0, 1, d) = None ->
+  exists m' r,
+    parse_lr GE (5 + f) m (mkargs gE s_zero 0 d true) = Some (Ok 1 (pr_of_list [tstr 49]), m') /\ m_cap m' = m_cap m /\
+    parse (step GE) (4 + f) (mkargs IE' s_zero 0 d true) = Some (Ok 2 r) /\
+    toks r = [tstr 49].
+Proof. exact direct_iterative_zero_inst. Qed.
+
+(* REFUTED without `walks`: a tail that matches without advancing.  E <<= E + Empty() | N on "1": bounded recursion stops at
+   the first non-advancing round and answers ['1'] ending at 1 (UnboundedMemo, LRUMemo(0/1/2)); the iterative equivalent
+   N + ZeroOrMore(Empty()) under the plain parser never returns (the real `while 1:` of _MultipleMatch spins; the model
+   answers Div).  Grammars as dumped from the real objects; confirmed on the implementation. *)
+Theorem C04_iterative_nullable_tail_refuted :
+  exists (G : env) (root iter_equiv : expr) (s : str),
+    (forall cap, In cap [None; Some 0; Some 1; Some 2] ->
+       res_of (parse_lr G 40 (memo_empty cap) (mkargs root s 0 true true)) = Some (1, [tstr 49])) /\
+    parse (step []) 40 (mkargs iter_equiv s 0 true true) = Some Div.
+Proof.
+  exists GZ, gZ, IZ, s_1. destruct nullable_tail_witness as [H1 [H2 _]]. split; assumption.
+Qed.
+
+(* ============================ 3c. the grouped form: left-nested token trees ============================ *)
+(* E <<= Group(E + t1 + rest...) | base (the body as the real streamline() leaves it: MatchFirst [Group(And(E :: tail)); base])
+   against the SAME flat iterative grammar base + ZeroOrMore(And(t1 :: rest)) under the plain parser.
+     left_nest        [a; op; b; op; c] -> [[[a; op; b]; op; c]] on token lists (the Python `left_nest` of tools/props/c04.py);
+     nest_rounds v rounds = fold_left (fun cur t => [TList (cur ++ t)]) rounds v  (the general fold, any round length);
+     a_round ans tail t : t is the token list of one match of the tail sequence;
+     agree_nested .. o_lr o_it : both Ok and there are rounds (each `a_round`) with
+         tokens(iterative) = tokens(base) ++ concat rounds   and   as_list(left-recursive) = nest_rounds as_list(base) rounds,
+       ends related as in `agree`; or both Err with the same class; or both Div.
+   PARTIAL: same hypotheses as C04_direct_iterative_partial with the Group (name-free, action-free, its own preParse does not
+   move from loc) in place of the And's stability; Group(aslist=True/False) both covered (`aspy`). *)
+Theorem C04_grouped_iterative_partial :
+  forall G G' s (ans : expr -> nat -> outcome) id aE ab aG aa aspy ai ar at_ t1 rest base loc f0,
+  nth_error G id = Some (Nary ab [] NMatchFirst
+                           [Enh aG [] (EGroup aspy) (Nary aa [] NAnd (Fwd aE [] (Some id) :: t1 :: rest)); base]) ->
+  plain aE -> plain aa -> plain ab -> plain aG ->
+  ws_of aG s loc = loc ->
+  indep G s ans f0 base ->
+  (forall c, In c (t1 :: rest) -> indep G s ans f0 c) ->
+  plain ai -> plain ar -> plain at_ ->
+  is_estop t1 = false ->
+  (forall c, In c rest -> pindep G' s ans f0 c) ->
+  (forall fu, f0 <= fu -> forall l d, parse (step G') fu (mkargs t1 s (ws_of at_ s l) d false) = Some (ans t1 l)) ->
+  (forall l, ws_of at_ s (ws_of ar s l) = ws_of at_ s l) ->
+  walks s ans (t1 :: rest) ->
+  (forall fu, f0 <= fu -> forall d, parse (step G') fu (mkargs base s loc d false) = Some (ans base loc)) ->
+  forall lb rb, ans base loc = Ok lb rb -> loc <= lb -> lb <= length s + 1 ->
+  forall f d pre loc0 m, f0 <= f ->
+  fwd_start aE s loc0 pre = loc -> fwd_start ai s loc0 pre = loc ->
+  memo_get m (loc, nid aE, d) = None ->
+  exists m' o_lr o_it,
+    parse_lr G (5 + f) m (mkargs (Fwd aE [] (Some id)) s loc0 d pre) = Some (o_lr, m') /\
+    m_cap m' = m_cap m /\
+    parse (step G') (3 + f)
+      (mkargs (Nary ai [] NAnd [base; Rep ar [] true (Nary at_ [] NAnd (t1 :: rest)) None]) s loc0 d pre) = Some o_it /\
+    agree_nested ans (t1 :: rest) (ws_of ar s lb) lb rb o_lr o_it.
+Proof. exact grouped_iterative. Qed.
+
+(* one token from base and two tokens (operator, operand) per round: as_list(left-recursive) = left_nest(as_list(iterative)) *)
+Theorem C04_grouped_left_nest_partial : forall (ans : expr -> nat -> outcome) tail wsl lb rb o_lr o_it,
+  length (toks rb) = 1 ->
+  (forall t, a_round ans tail t -> length t = 2) ->
+  agree_nested ans tail wsl lb rb o_lr o_it ->
+  match o_lr, o_it with
+  | Ok l r, Ok l' r' => pr_as_list r = left_nest (pr_as_list r') /\ l' = (if Nat.eqb l lb then wsl else l)
+  | Err x, Err x' => xk x' = xk x
+  | Div, Div => True
+  | _, _ => False
+  end.
+Proof. exact agree_nested_left_nest. Qed.
+
+(* every hypothesis of C04_grouped_iterative_partial is met: E <<= Group(E + '+' + N) | N on "1+2+1", every fuel, do_actions,
+   memo of any capacity *)
+Example C04_grouped_iterative_instance : forall f d m,
+  memo_get m (0, 1, d) = None ->
+  exists m' o_lr o_it,
+    parse_lr GG (6 + f) m (mkargs gGr s_121 0 d true) = Some (o_lr, m') /\ m_cap m' = m_cap m /\
+    parse (step GG) (4 + f) (mkargs IE' s_121 0 d true) = Some o_it /\
+    agree_nested (leaf_ans GG s_121) [lit 4 43; num 5] (ws_of IE_ar s_121 1) 1 (pr_of_list [tstr 49]) o_lr o_it.
+Proof. exact grouped_instance. Qed.
+
+(* the same by running both models: [[['1','+','2'],'+','1']] = left_nest ['1','+','2','+','1'], UnboundedMemo and LRUMemo(0/1/2) *)
+Example C04_grouped_positive :
+  let flat := [tstr 49; tstr 43; tstr 50; tstr 43; tstr 49] in
+  (forall cap, In cap [None; Some 0; Some 1; Some 2] ->
+     aslist_of (parse_lr GG 40 (memo_empty cap) (mkargs gGr s_121 0 true true)) = Some (5, left_nest flat)) /\
+  res_of_plain (parse (step GG) 40 (mkargs IE' s_121 0 true true)) = Some (5, flat) /\
+  left_nest flat = [TList [TList [tstr 49; tstr 43; tstr 50]; tstr 43; tstr 49]].
+Proof. exact grouped_computed. Qed.
 
 (* ============================ 4. indirect left recursion: refuted (F-04) ============================ *)
 (* X <<= Y + 'x' | 'a' ; Y <<= X + 'y' on "ayxyx": bounded recursion answers ['a'] ending at 1 (UnboundedMemo, LRUMemo(0),
